@@ -194,6 +194,12 @@ def rule_area(ctx, R):
     ok_less = "EQ(Val.type_,K0)" in less
     ok_equal = "!EQ(Val.type_,K0)" in equal or "EQ(Val.type_,K1)" in equal
     R.check(ok_less and ok_equal, "area:ordering_binding", "the emitted arm pattern is Less for ? (type 0) and Equal for ! (type 1): %s" % ob)
+    # the count the emitted comparison uses: the area emitter is called with the command's area and area count
+    cb = ctx.fb.bodies.get(COMPILE + "command")
+    if R.anchor(cb is not None, "command", "compile::command"):
+        croles = Roles(cb, ctx.fb, param_roles={1: "INDENT"})
+        sites_ = [[croles.of_operand(a, bi) for a in t["args"]] for bi, t in cb.calls() if callee_name(t["f"], ctx.fb) == COMPILE + "area"]
+        R.check(len(sites_) == 1 and sites_[0][1:] == ["AREA", "AREACOUNT"], "area:call_binding", "command() emits the area of the command with the command's count (syllables x dots): %s" % sites_, cb.span)
     lid = meta.get("bindings", {}).get("label_id", "")
     R.check(lid.startswith("((AREACOUNT Shl K4) Add ") and lid.endswith("type_)"), "area:label_id", "the emitted label id is (count << 4) + heart type, the interpreter's formula: %s" % lid[:80])
     for v in ("v0", "v1"):
@@ -566,6 +572,20 @@ def rule_units(ctx, R):
         m0 = rs[0]
         ok = m0.startswith("ELEM<State::get_all_stack_index(STATE)>") and rs[1] == "compile::vec_to_str(State::get_stack(STATE,%s))" % m0
         R.check(ok, "units:restore", "each restored stack is written to its own index: %s" % [x[:80] for x in rs], t.where)
+        # every non-empty stack is restored: inside the restore loop the only decision is emptiness of that stack
+        lp = [bl for h, bl in loops_.items() if t.block in bl]
+        if R.anchor(bool(lp), "units:restore_loop", "the loop over the stack indices that emits the restore lines"):
+            inner = min(lp, key=len)
+            evr = Events(b, fb, roles=roles)
+            conds = set()
+            for gb in inner:
+                tt = b.blocks[gb]["term"]
+                if tt["k"] == "switch" and not b.blocks[gb]["cleanup"]:
+                    for s_ in cfg.succ[gb]:
+                        lab = evr.generic_edge(gb, tt, s_)
+                        if lab and lab[:3] in ("BR[", "LT[", "EQ["):
+                            conds.add(lab.rsplit("=", 1)[0])
+            R.check(conds == {"BR[Vec::is_empty(State::get_stack(STATE,%s))]" % m0}, "units:restore_all", "every non-empty stack of the pre-executed state is restored (the only skip is an empty stack): %s" % sorted(c[:90] for c in conds), t.where)
         R.check("Num::from_string(x.to_string())" in t.skeleton(), "units:restore_reader", "restored values are read back with Num::from_string (the inverse of the writer, C09)", t.where)
     R.floor("control_templates", len(find("while state < ")) + len(find("    state = ")) + len(find("Some(")) + len(find("point.insert(")), 4, "templates that emit control targets")
 
@@ -641,3 +661,51 @@ def rule_numctor(ctx, R):
 
 
 RULES.append(("C03.NUMCTOR", "the number constructor that emitted programs call for every pushed count (Num::from_num -> BigNum::new) keeps every bit and the sign, zero non-negative (shared with C05.CTOR)", rule_numctor))
+
+
+RULES.append(("C03.SLOTS", "level-1 renumbering keeps every selectable stack apart (shared with C02.SLOTS): a program compiled at level 1 or 2 addresses the stacks the interpreter addresses", p_c02.rule_slots))
+
+
+def rule_levels(ctx, R):
+    """the command line hands the chosen level through unchanged: levels >= 1 go through optimize(code, level) and
+    compile / run what it returns, level 0 compiles / runs the parsed code on a fresh unoptimised state"""
+    fb = ctx.fb_all
+    for fn, sink in (("hyeong::app::build::run", COMPILE + "build_source"), ("hyeong::app::run::run", None)):
+        b = fb.bodies.get(fn)
+        if not R.anchor(b is not None, fn, fn):
+            continue
+        R.analyse(fn)
+        cfg = normal_cfg(b)
+        pr = {i: ("OPT" if "HyeongOption" in b.lty(i) else "P%d" % i) for i in range(1, b.argc + 1)}
+        roles = Roles(b, fb, param_roles=pr)
+        ev = Events(b, fb, roles=roles)
+        ge1, lt1 = [], []
+        for gb, blk in enumerate(b.blocks):
+            tt = blk["term"]
+            if tt["k"] == "switch" and not blk["cleanup"]:
+                for s_ in cfg.succ[gb]:
+                    lab = ev.generic_edge(gb, tt, s_) or ""
+                    if lab in ("LT[OPT.optimize,K1]=0", "EQ[K0,OPT.optimize]=0", "LT[K0,OPT.optimize]=1"):
+                        ge1.append((gb, s_))
+                    elif lab in ("LT[OPT.optimize,K1]=1", "EQ[K0,OPT.optimize]=1", "LT[K0,OPT.optimize]=0"):
+                        lt1.append((gb, s_))
+        short = fn.rsplit("::", 2)[-2]
+        if not R.anchor(len(ge1) == 1 and len(lt1) == 1, "levels:%s:test" % short, "the test `level >= 1` of %s" % fn):
+            continue
+        opts = [(bi, t) for bi, t in b.calls() if callee_name(t["f"], fb) == "hyeong::core::optimize::optimize"]
+        if R.anchor(len(opts) == 1, "levels:%s:optimize" % short, "the call of optimize()"):
+            ob, ot = opts[0]
+            R.check(roles.of_operand(ot["args"][1], ob) == "OPT.optimize", "levels:%s:optimize_level" % short, "optimize() receives the level chosen on the command line unchanged: %s" % roles.of_operand(ot["args"][1], ob), ot["span"]["at"])
+            R.check(not reaches_without(cfg, [0], ob, cut_edges=ge1) and not reaches_without(cfg, [lt1[0][1]], ob), "levels:%s:optimize_iff" % short, "optimize() runs exactly for levels >= 1", ot["span"]["at"])
+        if sink:
+            for bi, t in b.calls():
+                if callee_name(t["f"], fb) == sink:
+                    first = roles.of_operand(t["args"][0], bi)
+                    R.check(roles.of_operand(t["args"][2], bi) == "OPT.optimize", "levels:%s:emit_level:%s" % (short, "opt" if "optimize::optimize" in first else "unopt"), "build_source receives the chosen level unchanged", t["span"]["at"])
+                    if "optimize::optimize" in first:
+                        R.check(not reaches_without(cfg, [0], bi, cut_edges=ge1), "levels:%s:emit_opt" % short, "the optimised state and code are compiled only for levels >= 1", t["span"]["at"])
+                    else:
+                        R.check(not reaches_without(cfg, [0], bi, cut_edges=lt1) and "UnOptState::new" in first, "levels:%s:emit_unopt" % short, "the parsed code on a fresh unoptimised state is compiled only for level 0: %s" % first[:60], t["span"]["at"])
+
+
+RULES.append(("C03.LEVELS", "the level chosen on the command line selects the optimised / unoptimised path and is handed through unchanged", rule_levels))
